@@ -112,10 +112,33 @@ def evidence(prop, meta, tier, seed, results, violations, known_hits, wall, tool
 LIBC_ASSUME = "libc: the spec's realloc model (fresh object or NULL, contents of an arbitrary ghost window preserved, old block freed, realloc(p,0) frees) and CBMC's malloc/free stand for glibc"
 SIZE_ASSUME = "sizes that cannot exist in a 64-bit process are excluded by precondition where the tool needs it (hash bucket counts <= UINT_MAX, reference counts < 2^31, heap size < 2^31-1, live buffers < 2^55 bytes)"
 
+FENCE_ASSUME = "memory.c: C11 atomics are executed sequentially (DFCC warns that 'fence' statements are not instrumented); nothing is claimed about concurrent executions (C06 is not applicable)"
+REALLOC_NOTE = "content preservation across realloc is proved for one arbitrary ghost window per run (stands for every window); a valid _Bool object holds 0 or 1 (type invariant of the inputs)"
+
+_p('C05', 'proof', 'DESIGN.md 5/C05',
+   [HIST_ASSUME, FENCE_ASSUME, SIZE_ASSUME, LIBC_ASSUME,
+    "per-operation contracts cover: unique alloc/reset; shared alloc (into empty), reset, share (into empty / from empty), unique, get; weak from (into empty), lock (into empty / from empty), reset. Re-targeting an occupied pointer is reset followed by the empty-target case (both under contract; the composition is the first statement of the function). swap is a pointer exchange (guarded_ptr_swap) and is covered under C20/closed scenario only",
+    "the case 'both pointers already own the same allocation' (share/lock onto a co-owner) is covered only by the closed scenario group, not by a symbolic-counter contract"])
+_p('C09', 'proof', 'DESIGN.md 5/C09',
+   [HIST_ASSUME, LIBC_ASSUME, REALLOC_NOTE, SIZE_ASSUME,
+    "element size is a constant per instance: {1,4,12} in the quick tier, {1,2,3,4,8,12,16,64} in the thorough tier; buffers below 2^40 bytes (DFCC allocation limit)",
+    "sort/reverse/swap of a vector are exercised under C11 (raw array contracts); here: set_capacity, reserve, shrink_to_fit, resize, at, clear"])
 _p('C17', 'proof', 'DESIGN.md 5/C17',
    [CALLBACK_ASSUME, SIZE_ASSUME,
     "cstl_hash_mul: IEEE-754 binary32 semantics as implemented by CBMC's float encoding / cvc5 FP theory; floorf is CBMC's model",
     HIST_ASSUME])
+_p('C19', 'proof', 'DESIGN.md 5/C19',
+   [HIST_ASSUME, CALLBACK_ASSUME, SIZE_ASSUME, LIBC_ASSUME, REALLOC_NOTE,
+    "cstl_clean_bucket is replaced by its flat contract (stamp of the cleaned bucket set, no other stamp changes, bucket array in the frame) when the array-level functions are verified; that contract is checked against the real body only on chains of bounded length (group hash.clean_bucket, labelled bounded)",
+    "'relocates the contents of at most three buckets' is proved as: at most three calls of cstl_clean_bucket find a dirty bucket per keyed operation; that one such call relocates only the chain it detached is the bounded chain-level check"])
+_p('C20', 'proof', 'DESIGN.md 5/C20',
+   [FENCE_ASSUME,
+    "for two-argument functions the other argument is a well-stamped empty object; 'objects moved only with the provided functions never abort' is the normal-return reachability (vacuity canary) of every C05/C14 contract on well-stamped inputs",
+    "functions that only re-stamp (init, guarded_ptr_set, the destination of guarded_ptr_copy) and cstl_array_size (reads len only) are outside the property's wording"])
+_p('C14', 'proof', 'DESIGN.md 5/C14',
+   [HIST_ASSUME, FENCE_ASSUME, SIZE_ASSUME,
+    "element size is a constant per instance (view: 4 bytes, newly requested: 8 bytes); element counts up to 2^32 for existing views, unrestricted for requests",
+    "the shared-pointer functions are verified with their bodies inlined (no assumed contracts); views are: empty, internal buffer, external buffer; slice/unslice targets are the object itself or an empty object"])
 
 NOT_APPLICABLE = {
     'C06': "every-thread-interleaving refcounting: CBMC's contract instrumentation (DFCC) is sequential; a function contract relates one call's pre- and post-state and cannot quantify over schedules. The sequential bookkeeping is covered by C05.",
@@ -123,6 +146,16 @@ NOT_APPLICABLE = {
 }
 
 TEXT = {
+    'C05': ("Per-operation contracts over symbolic reference counters (1 <= hard <= soft < 2^31): each operation changes (hard, soft) by exactly the change in the number of owners/references, the clear callback runs once on live memory and the memory is freed exactly at hard 1->0, the block exactly at soft 1->0 (frees clauses + was_freed), lock yields an owner iff hard >= 1, unique <=> soft == 1; plus a loop-free closed scenario with leak audit under every allocation-failure subset.",
+            "contract-based deductive verification: CBMC 6.11 DFCC function contracts with frees clauses on memory.c, SAT back end"),
+    'C09': ("Unbounded contract proofs for every request size (all 2^64 values) per element-size instance: capacity >= size, storage is one live allocation of >= (capacity+1)*size bytes computed in 128 bits, bytes in range survive reallocation, reserve is a quiet no-op and resize aborts when growth is impossible, at aborts iff index >= size, constructors/destructors run exactly once per entering/leaving element in order (loop contracts).",
+            "contract-based deductive verification: CBMC 6.11 DFCC function + loop contracts on vector.c, SAT back end"),
+    'C19': ("Unbounded array-level contracts in every table state including 'rehash pending': a satisfiable resize request lands (effective geometry == request, load == size/n), on allocation failure nothing changes; each keyed access cleans at most three dirty buckets, advances the sweep by >= 1 bucket or completes it, completion installs exactly the requested geometry; without a pending rehash the current hash function is consulted exactly once with (k, count).",
+            "contract-based deductive verification: CBMC 6.11 DFCC function + loop contracts on hash.c (ghost-index sweep invariant), SAT back end"),
+    'C20': ("For every public smart-pointer / array function and argument position: requires the object in that position to be a stray copy (self != own address, any pointer value), ensures false with an empty frame, i.e. the call never returns and writes nothing before aborting; abort reachability is checked so the proof is not vacuous.",
+            "contract-based deductive verification: CBMC 6.11 DFCC contracts 'requires stray / ensures false / assigns nothing', SAT back end"),
+    'C14': ("Unbounded contracts on every well-formed view (any offset/length/element count, any owner counts): at returns an address inside the live buffer iff index < size, slice aborts iff end < beg or off+end passes the buffer (128-bit arithmetic), new views hold their own owner count, alloc/set yield a view from offset 0 or an empty object under every allocation-failure subset and for unrepresentable nm*sz, release hands an external buffer only to its sole user.",
+            "contract-based deductive verification: CBMC 6.11 DFCC function contracts on array.c with memory.c inlined, SAT back end"),
     'C17': ("Unbounded contract proofs (all keys, all table sizes): cstl_hash_div and cstl_hash_mul return < m; __cstl_hash_get_bucket returns a bucket inside [0,count) or aborts for an arbitrary caller hash; every other bucket-array access in hash.c is index-bounded by loop contracts / flat contracts.",
             "contract-based deductive verification: CBMC 6.11 DFCC function + loop contracts, SAT and cvc5 back ends"),
 }
